@@ -1,3 +1,297 @@
+//! vh-exec: executor family C01..C06 (C45, C07 in their own modules).
+//! One shared world generator + block-letter alphabet, one oracle per property.
+mod c45;
+mod chain;
+mod subject;
+mod universe;
+
+use chain::{SRC_CHECKED, SRC_GREEDY, SRC_HONEST, SRC_ONCE};
+use mcx::*;
+use serde_json::json;
+use subject::{Blk, ExecSubject, Prop};
+use universe::{CpVariant, Universe};
+
 fn main() {
-    mcx::machinery_failure("not built yet");
+    let cli = Cli::parse();
+    match cli.property.as_str() {
+        "C01" => run_prop(&cli, Prop::C01),
+        "C02" => run_prop(&cli, Prop::C02),
+        "C03" => run_prop(&cli, Prop::C03),
+        "C04" => run_prop(&cli, Prop::C04),
+        "C05" => run_prop(&cli, Prop::C05),
+        "C06" => run_prop(&cli, Prop::C06),
+        "C45" => run_prop(&cli, Prop::C45),
+        "probe" => probe(),
+        other => machinery_failure(&format!("vh-exec does not serve {other}")),
+    }
+}
+
+/// Development aid: run every template alone on the genesis state and print what happens.
+fn probe() {
+    use chain::*;
+    let u = Universe::new(CpVariant::Default, 1);
+    for da in [0u64, 3] {
+        for (i, t) in u.templates.iter().enumerate() {
+            let db = ChainDb::from_snaps(&[u.genesis.clone()]);
+            let tp = tip(&db);
+            let ex = executor(&u, db);
+            let t0 = std::time::Instant::now();
+            let r = produce(&u, &ex, next_header(&tp, da), vec![t.tx.clone()], 1, u.c2, 0);
+            let el = t0.elapsed();
+            match r {
+                Ok((res, ch)) => {
+                    let st: Vec<String> = res
+                        .tx_status
+                        .iter()
+                        .map(|s| format!("{}(gas {}, fee {})", if subject::failed(s) { "F" } else { "S" }, s.result.total_gas(), s.result.total_fee()))
+                        .collect();
+                    let sk: Vec<String> = res.skipped_transactions.iter().map(|(_, e)| format!("{e:?}")).collect();
+                    use fuel_core_types::blockchain::transaction::TransactionExt;
+                    println!(
+                        "da+{da} #{i} {}: max_gas {:?} size {} status {:?} skipped {:?} events {} changes {} [{:?}]",
+                        t.name,
+                        t.tx.max_gas(&u.cp).ok(),
+                        metered_size(&t.tx),
+                        st,
+                        sk,
+                        res.events.len(),
+                        change_list(&ch).len(),
+                        el
+                    );
+                }
+                Err(e) => println!("da+{da} #{i} {}: PRODUCE ERROR {e:?}", t.name),
+            }
+        }
+    }
+}
+
+fn t(u: &Universe, names: &[&str]) -> Vec<u8> {
+    names.iter().map(|n| u.tid(n)).collect()
+}
+
+/// Ordered transaction lists of length <= `max_len` over `singles`.
+fn lists(singles: &[u8], max_len: usize) -> Vec<Vec<u8>> {
+    let mut out: Vec<Vec<u8>> = vec![vec![]];
+    let mut layer: Vec<Vec<u8>> = vec![vec![]];
+    for _ in 0..max_len {
+        let mut next = vec![];
+        for l in &layer {
+            for s in singles {
+                let mut v = l.clone();
+                v.push(*s);
+                next.push(v);
+            }
+        }
+        out.extend(next.iter().cloned());
+        layer = next;
+    }
+    out
+}
+
+fn letters(lists: &[Vec<u8>], params: &[(u64, u8, u8)], src: u8) -> Vec<Blk> {
+    let mut v = vec![];
+    for l in lists {
+        for (gp, cb, da) in params {
+            v.push(Blk { txs: l.clone(), gp: *gp, cb: *cb, da: *da, src });
+        }
+    }
+    v
+}
+
+struct Plan {
+    subject: ExecSubject,
+    depth: usize,
+}
+
+fn all_templates(u: &Universe) -> Vec<u8> {
+    (0..u.templates.len() as u8).collect()
+}
+
+fn plans(cli: &Cli, prop: Prop) -> Vec<Plan> {
+    let thorough = cli.tier == Tier::Thorough;
+    let mut out = vec![];
+    let params_full: Vec<(u64, u8, u8)> = {
+        let mut p = vec![];
+        for gp in [0u64, 1] {
+            for cb in [0u8, 1] {
+                for da in [0u8, 1, 2] {
+                    p.push((gp, cb, da));
+                }
+            }
+        }
+        p
+    };
+    match prop {
+        Prop::C01 | Prop::C02 | Prop::C06 => {
+            // (a) wide and shallow: every ordered list of <=2 (thorough <=3 over the core set) templates, one block
+            let u = Universe::new(CpVariant::Default, 1);
+            let all = all_templates(&u);
+            let wide = letters(&lists(&all, 2), &if thorough { params_full.clone() } else { vec![(1, 1, 0), (0, 0, 2), (1, 0, 1)] }, 0);
+            out.push(Plan { subject: ExecSubject::new("wide: <=2 of all templates, 1 block", u.clone(), prop, wide), depth: 1 });
+            // (a') the same lists handed over pre-checked, as the pool does
+            let wide_checked = letters(&lists(&all, if thorough { 2 } else { 1 }), &[(1, 1, 1), (0, 0, 2)], SRC_CHECKED);
+            out.push(Plan { subject: ExecSubject::new("wide, pre-checked transactions (pool-like source)", u.clone(), prop, wide_checked), depth: if thorough { 1 } else { 2 } });
+            // (b) deep: histories of blocks over a core set
+            let core_names: Vec<&str> = if thorough || prop == Prop::C02 {
+                vec!["xfer", "dblspend", "dep", "call_ok", "call_rvrt", "call_tro", "create", "call_c3", "msgdata_rvrt", "msgdata_ok", "msg_early", "msg_relayed", "expiring", "noout", "missing", "call_smo"]
+            } else {
+                vec!["xfer", "dblspend", "dep", "call_ok", "call_rvrt", "create", "call_c3", "msgdata_rvrt", "msgdata_ok", "msg_relayed", "expiring", "noout"]
+            };
+            let core = t(&u, &core_names);
+            let deep_lists = if thorough { lists(&core, 2) } else { lists(&core, 1) };
+            let deep_params: Vec<(u64, u8, u8)> = if thorough {
+                vec![(0, 0, 0), (1, 1, 1), (1, 2, 2)]
+            } else if prop == Prop::C02 {
+                vec![(0, 0, 1), (1, 1, 0), (1, 2, 2)]
+            } else {
+                vec![(0, 0, 1), (1, 1, 0)]
+            };
+            let deep = letters(&deep_lists, &deep_params, 0);
+            out.push(Plan { subject: ExecSubject::new("deep: histories over the core templates", u.clone(), prop, deep), depth: if thorough { 2 } else { 3 } });
+            if thorough {
+                let l3 = letters(&lists(&core[..10], 3), &[(1, 1, 1)], 0);
+                out.push(Plan { subject: ExecSubject::new("triples: <=3 of 10 core templates, 2 blocks", u.clone(), prop, l3), depth: 2 });
+            }
+            // (c) tight limits
+            for v in [CpVariant::TinyGas, CpVariant::TinySize] {
+                let u = Universe::new(v, 3);
+                let set = t(&u, &["xfer", "call_oog", "spin", "call_ok", "big", "xfer_b"]);
+                let l = letters(&lists(&set, 3), &[(1, 1, 0), (0, 0, 1)], if v == CpVariant::TinySize { SRC_HONEST } else { 0 });
+                out.push(Plan { subject: ExecSubject::new(&format!("limits {v:?}: lists<=3 of 6 templates"), u, prop, l), depth: if thorough { 2 } else { 1 } });
+            }
+            if prop == Prop::C06 {
+                // (d) UTXO validation off: only the processed-id check stands between a resubmission and a second execution
+                let u = Universe::new(CpVariant::Default, 1);
+                let set = t(&u, &["xfer", "noout", "call_rvrt", "msgdata_rvrt", "dblspend", "missing", "create"]);
+                let l = letters(&lists(&set, if thorough { 2 } else { 1 }), &[(0, 0, 0), (1, 1, 1)], 0);
+                let mut s = ExecSubject::new("utxo validation off: resubmissions", u, prop, l);
+                s.utxo_validation = false;
+                out.push(Plan { subject: s, depth: 3 });
+            }
+        }
+        Prop::C04 => {
+            let u = Universe::new(CpVariant::Default, 1);
+            let all = all_templates(&u);
+            let wide = letters(&lists(&all, 2), &if thorough { vec![(0, 0, 0), (1, 1, 0), (2, 2, 1), (1, 1, 2), (1, 0, 0)] } else { vec![(1, 1, 0), (0, 0, 2), (2, 2, 1)] }, 0);
+            out.push(Plan { subject: ExecSubject::new("wide: <=2 of all templates, 1 block", u.clone(), prop, wide), depth: 1 });
+            let core = t(&u, &["xfer", "call_ok", "call_rvrt", "call_panic", "call_oog", "call_smo", "msgdata_rvrt", "msgdata_ok", "dblspend", "expiring", "msg_early", "call_tro"]);
+            let deep = letters(&lists(&core, if thorough { 2 } else { 1 }), &[(1, 1, 0), (1, 2, 1)], 0);
+            out.push(Plan { subject: ExecSubject::new("deep: histories with reverting scripts", u.clone(), prop, deep), depth: if thorough { 2 } else { 3 } });
+            if thorough {
+                let l3 = letters(&lists(&core[..8], 3), &[(1, 1, 0)], 0);
+                out.push(Plan { subject: ExecSubject::new("triples: <=3 of 8 templates", u.clone(), prop, l3), depth: 1 });
+            }
+            let u = Universe::new(CpVariant::TinyGas, 0);
+            let set = t(&u, &["xfer", "call_oog", "spin", "call_rvrt", "call_ok"]);
+            let l = letters(&lists(&set, 3), &[(1, 1, 0)], 0);
+            out.push(Plan { subject: ExecSubject::new("limits TinyGas: gas-overflow skips", u, prop, l), depth: if thorough { 2 } else { 1 } });
+        }
+        Prop::C03 => {
+            for (v, src) in [
+                (CpVariant::Default, SRC_ONCE),
+                (CpVariant::TinyGas, SRC_HONEST),
+                (CpVariant::TinyGas, SRC_ONCE),
+                (CpVariant::TinyGas, SRC_GREEDY),
+                (CpVariant::TinySize, SRC_HONEST),
+                (CpVariant::TinySize, SRC_ONCE),
+                (CpVariant::TinySize, SRC_GREEDY),
+            ] {
+                let u = Universe::new(v, 0);
+                let set = if v == CpVariant::Default {
+                    t(&u, &["xfer", "dblspend", "call_ok", "call_rvrt", "call_oog", "create", "msg_coin", "pred", "blob", "tip", "multi", "missing", "mint_src", "noout", "big"])
+                } else {
+                    t(&u, &["xfer", "call_oog", "spin", "call_ok", "big", "xfer_b"])
+                };
+                let params: Vec<(u64, u8, u8)> = if thorough { vec![(0, 0, 0), (0, 1, 0), (1, 0, 0), (1, 1, 0), (2, 2, 0), (3, 1, 0)] } else { vec![(0, 0, 0), (0, 1, 0), (1, 0, 0), (1, 1, 0), (2, 2, 0)] };
+                let max_len = if v == CpVariant::Default { 2 } else if thorough { 4 } else { 3 };
+                let l = letters(&lists(&set, max_len), &params, src);
+                let kind = ["once-source", "greedy-source", "honest-source"][src as usize];
+                out.push(Plan { subject: ExecSubject::new(&format!("{v:?} {kind}: lists<={max_len}"), u, prop, l), depth: if thorough && v == CpVariant::Default { 2 } else { 1 } });
+            }
+        }
+        Prop::C45 => {
+            let u = Universe::new(CpVariant::Default, 1);
+            let core = t(&u, &["xfer", "call_ok", "call_rvrt", "create", "msgdata_ok"]);
+            let mut l = letters(&lists(&core, 1), &[(1, 1, 1)], 0);
+            l.push(Blk { txs: t(&u, &["xfer", "call_ok"]), gp: 0, cb: 0, da: 0, src: 0 });
+            let mut s = ExecSubject::new("chains over 5 templates x dry-run request grid", u, prop, l);
+            s.thorough = thorough;
+            out.push(Plan { subject: s, depth: if thorough { 3 } else { 2 } });
+        }
+        Prop::C05 => {
+            for script in 1..=3u8 {
+                let u = Universe::new(CpVariant::Default, script);
+                let ls: Vec<Vec<u8>> = if thorough {
+                    lists(&t(&u, &["xfer", "msg_relayed", "msg_early", "dep"]), 2)
+                } else {
+                    vec![vec![], t(&u, &["msg_relayed"]), t(&u, &["xfer"]), t(&u, &["msg_early"]), t(&u, &["xfer", "dep"])]
+                };
+                let mut params = vec![];
+                for da in 0..=3u8 {
+                    params.push((0u64, 0u8, da));
+                    if thorough || da % 2 == 1 {
+                        params.push((1, 1, da));
+                    }
+                }
+                let l = letters(&ls, &params, 0);
+                out.push(Plan { subject: ExecSubject::new(&format!("relayer script {script}: DA advances 0..=3"), u, prop, l), depth: if thorough { 4 } else { 3 } });
+            }
+        }
+    }
+    out
+}
+
+fn required_facts(prop: Prop) -> Vec<&'static str> {
+    match prop {
+        Prop::C01 => vec!["c01:validated", "status:failed", "skip:TransactionIdCollision", "skip:TransactionValidity.CoinDoesNotExist", "skip:GasOverflow"],
+        Prop::C02 => vec!["c02:events-checked", "c02:retryable-kept", "c02:zero-output-not-created", "skip:TransactionValidity.CoinDoesNotExist", "skip:TransactionValidity.MessageSpendTooEarly"],
+        Prop::C03 => vec!["c03:limits-checked-nonempty", "c03:mutant-rejected:amount+1", "c03:mutant-rejected:index+1", "c03:mutant-rejected:no-mint", "c03:mutant-rejected:two-mints", "skip:GasOverflow"],
+        Prop::C04 => vec![
+            "c04:revert-checked",
+            "c04:retryable-kept",
+            "c04:skip-checked:GasOverflow",
+            "c04:skip-checked:TransactionIdCollision",
+            "c04:skip-checked:TransactionValidity.CoinDoesNotExist",
+            "c04:skip-checked:TransactionValidity.CoinMismatch",
+            "c04:skip-checked:TransactionValidity.MessageSpendTooEarly",
+        ],
+        Prop::C05 => vec!["c05:invalid-forced-reported", "c05:forced-included", "c05:forced-failed-reported", "c05:da-jump-1", "c05:da-jump-2", "c05:da-jump-3", "c05:no-advance"],
+        Prop::C06 => vec!["skip:TransactionIdCollision", "c06:crafted-rejected"],
+        Prop::C45 => vec!["c45:producer-ok", "c45:producer-err", "c45:executor-ok", "c45:executor-err", "c45:reverting-dry-run", "c45:storage-reads-recorded", "c45:past-height-ok"],
+    }
+}
+
+fn run_prop(cli: &Cli, prop: Prop) {
+    let plans = plans(cli, prop);
+    if let Some(path) = &cli.replay {
+        let rf = load_replay(path);
+        for p in &plans {
+            if p.subject.name == rf.subject {
+                replay_and_exit(&p.subject, &rf);
+            }
+        }
+        machinery_failure("replay: unknown subject");
+    }
+    let mut run = Run::new(cli, "model_checking");
+    let mut facts: std::collections::BTreeMap<String, u64> = Default::default();
+    let n = plans.len() as u64;
+    for p in &plans {
+        let b = Bounds::new(p.depth, cli).wall(cli.tier.pick(55, 1500) / n.max(1) + 5);
+        let r = explore(&p.subject, &b);
+        for (k, v) in p.subject.facts() {
+            *facts.entry(k).or_default() += v;
+        }
+        run.note(&format!("alphabet[{}]", p.subject.name), json!({"letters": p.subject.alphabet.len(), "depth": p.depth, "templates": p.subject.u.templates.len()}));
+        run.add(r);
+    }
+    let violated = run.reports.iter().any(|r| !r.violations.is_empty());
+    for f in required_facts(prop) {
+        if !facts.keys().any(|k| k.starts_with(f)) && !violated {
+            machinery_failure(&format!("vacuous run: fact `{f}` never observed"));
+        }
+    }
+    run.note("facts", json!(facts));
+    run.assume("executor runs with UTXO validation on (forbid_fake_coins = true), native execution strategy, in-memory on-chain database restored from a full column dump per step");
+    run.assume("transaction universe = the fixed templates of vh-exec/src/universe.rs; relayer = scripted mock of the RelayerPort");
+    run.finish();
 }
